@@ -78,4 +78,44 @@ CLAIMS = {
   note='Trusted: Coq kernel; abstract matchers (one pseudo-random packet set per entry body); IOS semantics "an ACL without entries permits '
        'everything". The general stepwise theorem is refuted for the current algorithm (see known findings); the proved part is the route half.',
   technique='Coq theorem for route coverage + per-step verdict evaluation of real scripts in Coq with known-finding predicates'),
+ 'C06': dict(
+  text='In the dialogue model a wrong hostname / non-active HA state is junk at an inspected request and a missing marker leaves a plan '
+       'without changing requests; the Coq theorems (for every plan and every device behaviour) say that nothing changing is sent and '
+       'the run fails. Real runs of drc and do-approve on five families against the simulators cover hostname variants (prefix, '
+       'extension, case), marker present / absent / other banner / not configured, all PAN-OS HA states, with and without pending changes.',
+  design_ref='DESIGN.md section 4, C06',
+  note='Trusted: simulators (sim/simdev.py, harness httpsim) as devices; classification of received lines. Known finding F-C06-1 (Linux ignores the missing marker).',
+  technique='Coq theorems over a dialogue interpreter + scenario product on real binaries against device simulators'),
+ 'C09': dict(
+  text='C09_fault_stops_run, C09_ok_only_if_all_accepted, C09_effective_fault_fails: theorems over the dialogue interpreter for every plan, '
+       'oracle and position. The interpreter is tied to the tool by fault enumeration on the real do-approve for ASA, IOS, Linux, PAN-OS and NSX: '
+       'every position x {error text, unexpected output, expected warning followed by a rejection, connection close, stall, HTTP 500, malformed '
+       'reply, failure status, failed commit job}; the received command classes, exit status, status slots and history line are compared with the '
+       'model and judged by the Coq trace predicates. The literal reading (any unexpected output stops the run) is refuted in Coq and recorded as F-C09-1.',
+  design_ref='DESIGN.md section 4, C09',
+  note='Trusted: simulators; the table of inspected replies (CHECKED) is validated by the correspondence. Not modelled: real timing, pty buffering, partial writes.',
+  technique='Coq theorems over a dialogue interpreter + exhaustive fault-position enumeration on real binaries'),
+ 'C11': dict(
+  text='C11_compare_is_read_only: a plan without changing requests never sends one for any device behaviour; the compare plans contain none. '
+       'Real compare runs (drc -C, do-approve compare) on five families with non-empty differences, every interlock outcome and a fault at '
+       'every position: the simulators must receive nothing but login, session setting and reads (ASA terminal-width block allowed).',
+  design_ref='DESIGN.md section 4, C11',
+  note='Trusted: simulators and the classification of received lines.',
+  technique='Coq theorem over the dialogue interpreter + enumeration of compare sessions with faults'),
+ 'C15': dict(
+  text='C15_guard_brackets_changes with C15_ios_plan_is_guarded: for every script and every device behaviour each change is sent under an '
+       'accepted reload guard, the configuration is saved only after its cancellation and only if no effective fault occurred. Banner '
+       'transparency is decided on the real tool: kinds {2:00, 1:00} x five forms x every command position of the guarded region; outcome and '
+       'change commands must equal the banner-free run and the one-minute warning must re-arm the reload.',
+  design_ref='DESIGN.md section 4, C15',
+  note='Trusted: the five banner forms as produced by sim/simdev.py. Known findings F-C15-1, F-C15-2; F-C15-3 fixed.',
+  technique='Coq theorem over the dialogue interpreter + banner form/position enumeration on the real tool'),
+ 'C17': dict(
+  text='C17_masked_login_url_independent_of_password: the PAN-OS login URL as logged and as embedded in error messages is the same string for '
+       'every password (QueryEscape emits no separator, so the mask covers the whole value); the model is compared with the logged line. All '
+       'sinks of real runs (session logs, run log, history, status, stdout, stderr) on five families, success and every failure kind/position, '
+       'are scanned for password, API key and session token, plain and URL-encoded.',
+  design_ref='DESIGN.md section 4, C17',
+  note='Trusted: simulators do not echo passwords. Known finding F-C17-1 (API key in transport error messages, pinned by tests).',
+  technique='Coq theorem on the masking of the login URL + byte scan of all sinks over fault enumeration'),
 }
